@@ -47,6 +47,41 @@ type PublishHookContext func(ctx context.Context, eventType reflect.Type, event 
 
 const numShards = 32 // Power of 2 for efficient modulo
 
+// inflight counts running async handlers. Unlike sync.WaitGroup it may be
+// waited on while other goroutines keep publishing: an Add from zero may race
+// with Wait, which returns once the count has been observed at zero.
+type inflight struct {
+	mu   sync.Mutex
+	n    int
+	zero chan struct{} // closed when n drops to zero; nil while nobody waits
+}
+
+func (f *inflight) Add(delta int) {
+	f.mu.Lock()
+	f.n += delta
+	if f.n == 0 && f.zero != nil {
+		close(f.zero)
+		f.zero = nil
+	}
+	f.mu.Unlock()
+}
+
+func (f *inflight) Done() { f.Add(-1) }
+
+func (f *inflight) Wait() {
+	f.mu.Lock()
+	if f.n == 0 {
+		f.mu.Unlock()
+		return
+	}
+	if f.zero == nil {
+		f.zero = make(chan struct{})
+	}
+	ch := f.zero
+	f.mu.Unlock()
+	<-ch
+}
+
 // shard represents a single shard with its own mutex
 type shard struct {
 	mu       sync.RWMutex
@@ -61,7 +96,7 @@ type EventBus struct {
 	afterPublish     PublishHook
 	beforePublishCtx PublishHookContext
 	afterPublishCtx  PublishHookContext
-	wg               sync.WaitGroup
+	wg               inflight
 
 	// Optional persistence fields (nil if not using persistence)
 	store                   EventStore
